@@ -214,14 +214,19 @@ class _TupleSub(ast.NodeTransformer):
         return n
 
 
-def keyset_of(index, e: ast.AST):
+def keyset_of(index, e: ast.AST, collected: bool = False):
+    """(source of the parameters, 'req' / 'opt' / 'all') for a *collection* of parameter
+    names.  A bare generator expression is not a collection: membership tests consume it, so
+    it is read only as the argument of list / set / tuple / sorted / frozenset"""
     if isinstance(e, ast.Call) and src(e.func) in ('set', 'list', 'tuple', 'frozenset',
                                                    'sorted') and len(e.args) == 1:
-        return keyset_of(index, e.args[0])
+        return keyset_of(index, e.args[0], True)
     if isinstance(e, ast.BinOp) and isinstance(e.op, (ast.Add, ast.BitOr)):
         a_, b_ = keyset_of(index, e.left), keyset_of(index, e.right)
         if a_ and b_ and a_[0] == b_[0] and {a_[1], b_[1]} == {'req', 'opt'}:
             return (a_[0], 'all')
+        return None
+    if isinstance(e, ast.GeneratorExp) and not collected:
         return None
     if isinstance(e, (ast.ListComp, ast.SetComp, ast.GeneratorExp)) and \
             len(e.generators) == 1 and isinstance(e.generators[0].target, ast.Name):
@@ -854,6 +859,20 @@ def validation_before_imports(index: RepoIndex, rep, rule: str) -> None:
                       f'turned into another one (a non-integral shape is truncated) and a '
                       f'different environment is built instead of the file being rejected')
     rep.holds(rule, f'{rel}:<module>:Use', f'{len(uses)} converting validators')
+    # ... and what `validate` hands back is a rebuilt copy: the factories pop `name` and
+    # convert reserved keys in it (C17.R5).  `Const(<container schema>)` validates and returns
+    # the caller's own object
+    consts = [n for n in ast.walk(mod.tree) if isinstance(n, ast.Call)
+              and src(n.func).split('.')[-1] == 'Const' and n.args
+              and any(isinstance(x, (ast.Dict, ast.List, ast.Set, ast.Tuple))
+                      for x in ast.walk(n.args[0]))]
+    for n in consts:
+        rep.violation(rule, rel, '<module>', n.lineno, src(n)[:80],
+                      f'`{src(n)[:60]}` validates a mapping / sequence and returns the caller\'s '
+                      f'own object instead of a rebuilt copy: the factories then pop `name` and '
+                      f'convert reserved keys in the user\'s configuration data, and a second '
+                      f'build from the same data fails')
+    rep.holds(rule, f'{rel}:<module>:Const', f'{len(consts)} pass-through container schemas')
     # the premise: validation comes first in the entry point
     fe = index.func('gym_gridverse/envs/yaml/factory.py', 'factory_env_from_data')
     w = walk_function(fe.node)
@@ -936,6 +955,26 @@ def factory_rules(index: RepoIndex, rep, rule: str) -> None:
         rep.check(not diff, rule, ROLE_FILE[r], 'factory', f.node.lineno,
                   f'{r} factory', f'the {r} factory differs from its five siblings beyond the '
                   f'registry and the error text (in {diff})', f'{r} factory sibling-equal')
+    for r, f in sorted(facts.items()):
+        lazy = []
+        for t_ in [norm[r]['check_raw'] or ''] + list(norm[r]['ret_raw']):
+            try:
+                te = ast.parse(t_, mode='eval').body
+            except SyntaxError:
+                continue
+            for c_ in ast.walk(te):
+                if isinstance(c_, ast.Call) and isinstance(c_.func, ast.Name) and \
+                        c_.func.id in ('select_kwargs', 'checkraise_kwargs') and \
+                        len(c_.args) == 2 and (
+                            isinstance(c_.args[1], ast.GeneratorExp) or
+                            isinstance(c_.args[1], ast.Call) and src(c_.args[1].func) in (
+                                'map', 'filter', 'zip', 'iter', 'reversed')):
+                    lazy.append(f'{c_.func.id}(.., {src(c_.args[1])[:60]})')
+        rep.check(not lazy, rule, ROLE_FILE[r], 'factory', f.node.lineno,
+                  '; '.join(lazy)[:200] or 'key collections are containers',
+                  f'the {r} factory hands a one-shot iterator to {(lazy or [""])[0][:90]}: every '
+                  f'membership test consumes it, so the parameters written after the first one '
+                  f'that is not accepted are silently dropped', f'{r} factory: key containers')
     for r, f in sorted(facts.items()):
         rep.check(not norm[r]['edits'], rule, ROLE_FILE[r], 'factory', f.node.lineno,
                   '; '.join(norm[r]['edits'])[:200],
